@@ -56,7 +56,8 @@ fn hist<T: CellT + std::hash::Hash>(seed: u64, histories: usize, steps: usize, m
         // paths (2^16 ...) are out of reach of the large histories below
         let bulky = std::mem::size_of::<T>() >= 1024;      // (page-sized elements: the same byte volumes with far fewer cells)
         // (not in fault mode: after a fault the trace specification compares bags of 10^5 live elements - minutes per event)
-        let huge = histories >= 100 && (h == 12 || h % 97 == 13) && !bulky && !faults;
+        // (exactly three per run, however long the run: each costs TLC tens of seconds)
+        let huge = histories >= 100 && (h == 12 || h == 13 || h == 110) && !bulky && !faults;
         let large = huge || rng.chance(25);
         let (nc, nr) = if huge {
             // (about 10^6 cells for element types without a ledger entry per element, 10^5 otherwise)
